@@ -11,10 +11,10 @@ except ImportError:                    # pragma: no cover
 
 from ..fdai import Interp, Obj, PyRaise, Unknown, explore, Imprecise
 from ..loader import AnchorError, dotted, is_self_attr, parent, short, src, walk_no_nested
-from ..locks import held_at, class_locks
+from ..locks import held_at, class_locks, regions
 from ..mayraise import Escapes
 from ..resolve import Resolver
-from ..rules import attr_writes, cfg_of, guard_facts, package_attr_writes, where
+from ..rules import attr_writes, dict_key_field, cfg_of, guard_facts, package_attr_writes, resolved_src, where
 
 MB = "operon_ai/organelles/membrane.py"
 IN = "operon_ai/surveillance/innate.py"
@@ -64,6 +64,21 @@ def run(p, led, tier):
     if filt is None or chk is None:
         raise AnchorError("Membrane.filter / InnateImmunity.check not found")
     sigcls = p.cls("Signal", "operon_ai/core/types.py")
+    # private fields, identified through the public statistics / accessors that expose them
+    AUDIT = dict_key_field(p, mem, "get_audit_log", None) if False else None
+    ga = p.find_method(mem, "get_audit_log")
+    if ga is not None:
+        for n in walk_no_nested(ga.node):
+            if isinstance(n, ast.Return) and n.value is not None:
+                for x in ast.walk(n.value):
+                    if is_self_attr(x):
+                        AUDIT = x.attr
+    BLOCKED = dict_key_field(p, mem, "get_statistics", "blocked_hashes")
+    LEARNED = dict_key_field(p, mem, "get_statistics", "learned_patterns")
+    for nm_, v_ in (("get_audit_log()", AUDIT), ("get_statistics()['blocked_hashes']", BLOCKED), ("get_statistics()['learned_patterns']", LEARNED)):
+        if v_ is None:
+            raise AnchorError(f"Membrane: the field behind {nm_} could not be identified")
+    led.extra["fields"] = dict(audit_log=AUDIT, blocked_hashes=BLOCKED, learned_patterns=LEARNED)
 
     # ---------------- R1/R4 Membrane
     def build(o, T, L1, L2, L3, rate=None):
@@ -90,10 +105,10 @@ def run(p, led, tier):
 
     def outcome(it, m, r, n_log_before):
         dec = {d[2]: d[3] for d in it.decisions}
-        log = m.fields["_audit_log"]
+        log = m.fields[AUDIT]
         return dict(scanned=sorted(set(getattr(it, "scanned_text", []))), allowed=r.fields["allowed"], level=nm(r.fields["threat_level"]), matched=[x.fields["pattern"] for x in r.fields["matched_signatures"]],
                     dec=dec, log_delta=len(log) - n_log_before, logged_same=(len(log) > n_log_before and log[-1] is r),
-                    remembered=any(isinstance(h, Unknown) and "content" in h.sym for h in m.fields["_blocked_hashes"]))
+                    remembered=any(isinstance(h, Unknown) and "content" in h.sym for h in m.fields[BLOCKED]))
     cells = 0
     bad = []
     audit_bad = []
@@ -103,7 +118,7 @@ def run(p, led, tier):
                 for L3 in (levels[-1], levels[0]):
                     def go(o):
                         it, m, sig = build(o, T, L1, L2, L3)
-                        n0 = len(m.fields["_audit_log"])
+                        n0 = len(m.fields[AUDIT])
                         try:
                             r = it.call_fi(filt, [m, sig], {})
                         except PyRaise as e:
@@ -151,7 +166,7 @@ def run(p, led, tier):
     # rate-limited and replay paths: audit + refusal
     def go_rate(o):
         it, m, sig = build(o, "DANGEROUS", "SAFE", "SAFE", "SAFE", rate=Unknown("rate_limit"))
-        n0 = len(m.fields["_audit_log"])
+        n0 = len(m.fields[AUDIT])
         r = it.call_fi(filt, [m, sig], {})
         out = outcome(it, m, r, n0)
         out["limited"] = any("rate_limit" in k and v is False for k, v in out["dec"].items()) or any("rate_limit" in d[2] and ">=" in d[0] and d[1] for d in it.decisions)
@@ -174,10 +189,10 @@ def run(p, led, tier):
             it.call_fi(p.find_method(mem, "set_threshold"), [m, it.enum_member(TL, "CRITICAL")], {})
             it.call_fi(p.find_method(mem, "forget_threat"), [m, "p2"], {})
             m.fields["signatures"] = []
-            m.fields["_learned_patterns"].clear()
-        n0 = len(m.fields["_audit_log"])
+            m.fields[LEARNED].clear()
+        n0 = len(m.fields[AUDIT])
         r2 = it.call_fi(filt, [m, sig], {})
-        return dict(first_blocked=first_blocked, second_allowed=r2.fields["allowed"], log_delta=len(m.fields["_audit_log"]) - n0, same=m.fields["_audit_log"][-1] is r2)
+        return dict(first_blocked=first_blocked, second_allowed=r2.fields["allowed"], log_delta=len(m.fields[AUDIT]) - n0, same=m.fields[AUDIT][-1] is r2)
     for relax in (False, True):
         paths = [r for _, r in explore(lambda o: go_replay(o, relax), max_paths=200)]
         rel = [r for r in paths if r["first_blocked"]]
@@ -200,7 +215,7 @@ def run(p, led, tier):
         def go_hist(o):
             it, m, sig = build(o, "DANGEROUS", "SAFE", "SAFE", "SAFE")
             m.fields["signatures"] = []
-            m.fields["_learned_patterns"].clear()
+            m.fields[LEARNED].clear()
             r1 = it.call_fi(filt, [m, sig], {})
             if r1.fields["allowed"] is not True:
                 return None
@@ -234,7 +249,7 @@ def run(p, led, tier):
             led.fail("C10-R1", key, where(filt, filt.node), badh[0], witness="filter(x) admitted; import_antibodies([sig matching x]); filter(x) admitted again")
         else:
             led.ok("C10-R1", key, where(filt, filt.node), f"{len(paths)} path(s): the second decision reflects the changed rules")
-    shrink = [(fi, k, n) for fi, k, n in package_attr_writes(p, "_blocked_hashes", None) if not k.endswith(":add") and not (fi.cls is mem and fi.name == "__init__")]
+    shrink = [(fi, k, n) for fi, k, n in package_attr_writes(p, BLOCKED, None) if not k.endswith(":add") and not (fi.cls is mem and fi.name == "__init__")]
     key = "package ▸ replay memory only grows"
     if shrink:
         led.fail("C10-R2", key, where(shrink[0][0], shrink[0][2]), f"`{short(shrink[0][2])}` removes/replaces remembered hashes: a blocked input can be admitted later")
@@ -300,42 +315,90 @@ def run(p, led, tier):
         led.ok("C10-R1", key, where(chk, chk.node), "a matched pattern at/above the threshold or a validator rejection always blocks; nothing else does except ACUTE inflammation; API-added patterns are scanned")
 
     # ---------------- R3 rate window
-    rl = p.find_method(mem, "_check_rate_limit")
+    # anchor by role: the method below filter() that compares len(self.<window>) with self.rate_limit
+    rl, WIN = None, None
+    for f in res.reachable_from(filt):
+        if f.cls is not mem:
+            continue
+        for n in walk_no_nested(f.node):
+            if isinstance(n, ast.Compare) and any(is_self_attr(x, "rate_limit") for x in ast.walk(n)):
+                for x in ast.walk(n):
+                    if isinstance(x, ast.Call) and isinstance(x.func, ast.Name) and x.func.id == "len" and x.args and is_self_attr(x.args[0]):
+                        rl, WIN = f, x.args[0].attr
     if rl is None:
-        raise AnchorError("Membrane._check_rate_limit not found")
+        raise AnchorError("Membrane: no method below filter() compares len(self.<window>) with self.rate_limit")
+    led.extra["rate_window"] = dict(method=rl.qual, field=WIN)
     locks = class_locks(mem)
-    cfg = cfg_of(rl, led)
-    apps = [n for k, n in attr_writes(rl.node, "_request_times", "self") if k == "mutcall:append"]
-    tests = [t for t in cfg.nodes if t.kind == "test" and isinstance(t.ast, ast.Compare) and "len(self._request_times)" in src(t.ast) and "rate_limit" in src(t.ast)]
-    key = "Membrane._check_rate_limit ▸ comparator"
-    if len(tests) == 1 and isinstance(tests[0].ast.ops[0], ast.GtE) and "len(self._request_times)" in src(tests[0].ast.left):
-        led.ok("C10-R3", key, where(rl, tests[0].ast), f"`{short(tests[0].ast)}`: at most rate_limit admissions per window")
-    elif len(tests) == 1 and isinstance(tests[0].ast.ops[0], ast.LtE) and "len(self._request_times)" in src(tests[0].ast.comparators[0]):
-        led.ok("C10-R3", key, where(rl, tests[0].ast), f"`{short(tests[0].ast)}`")
+    # (a) exact admission rule, by abstract interpretation over window sizes × limits × which old entries are still inside the window
+    probs, npaths = [], 0
+    for limit in (1, 2, 3):
+        for k in range(0, 5):
+            def go_r(o, _limit=limit, _k=k):
+                it = Interp(p, o)
+                m = it.instantiate(mem, [], dict(threshold=it.enum_member(TL, levels[-1]), rate_limit=_limit, silent=True, on_threat=None, enable_adaptive=True))
+                old = [Unknown(f"t{i}") for i in range(_k)]
+                m.fields[WIN] = list(old)
+                try:
+                    r = it.call_fi(rl, [m], {})
+                except PyRaise as e:
+                    return dict(raised=repr(e.exc))
+                w = m.fields[WIN]
+                if not isinstance(w, list):
+                    return dict(raised=f"window became {type(w).__name__}")
+                kept = [x for x in w if any(x is y for y in old)]
+                new_ = [x for x in w if not any(x is y for y in old)]
+                return dict(ret=r, kept=len(kept), added=len(new_))
+            try:
+                paths = [r for _, r in explore(go_r, max_paths=400)]
+            except Imprecise as e:
+                raise AnchorError(f"{rl.qual} could not be interpreted: {e}")
+            npaths += len(paths)
+            for r in paths:
+                if "raised" in r:
+                    probs.append(f"limit={limit}, {k} earlier admission(s): raises {r['raised']}")
+                    continue
+                limited = r["ret"]
+                if not isinstance(limited, bool):
+                    probs.append(f"limit={limit}: verdict {limited!r} is not a boolean")
+                    continue
+                want_limited = r["kept"] >= limit
+                if limited != want_limited:
+                    probs.append(f"rate_limit={limit}, {r['kept']} admission(s) still inside the window: request is {'refused' if limited else 'admitted'}"
+                                 + (" — more than rate_limit inputs pass per window" if not limited else " — fewer than rate_limit inputs pass"))
+                if (not limited) and r["added"] != 1:
+                    probs.append(f"an admitted request adds {r['added']} entries to the window (exactly one expected)")
+                if limited and r["added"] != 0:
+                    probs.append("a refused request is recorded in the window: refused requests consume the budget")
+    key = f"{rl.qual} ▸ admits exactly while fewer than rate_limit admissions are inside the window"
+    if probs:
+        led.fail("C10-R3", key, where(rl, rl.node), sorted(set(probs))[0], path=sorted(set(probs))[:8], witness="rate_limit=2: a third request inside the window is admitted")
     else:
-        led.fail("C10-R3", key, where(rl, rl.node), "the window test is not `len(window) >= rate_limit`: more than rate_limit inputs can be admitted per window", witness="rate_limit=2: a third request inside the window is admitted")
-    key = "Membrane._check_rate_limit ▸ append only when admitting"
-    if len(apps) == 1 and tests:
-        an = cfg.node_of(apps[0])
-        t = tests[0]
-        seen = cfg.reach(start_edges=[(t, m_, l) for m_, l in t.succ if l == "T"])
-        dom = cfg.dominators()
-        if an in seen or t not in dom.get(an, ()):
-            led.fail("C10-R3", key, where(rl, apps[0]), "the request time is appended on the refusing edge too (or before the test): refused requests consume the window / the count is off")
-        else:
-            led.ok("C10-R3", key, where(rl, apps[0]), "append is dominated by the window test and unreachable from its refusing edge")
+        led.ok("C10-R3", key, where(rl, rl.node), f"{npaths} path(s) over limits 1–3 × 0–4 earlier admissions × every subset still inside the window: refused ⇔ kept ≥ limit; admitted ⇒ one entry added; refused ⇒ none")
+    key = f"{rl.qual} ▸ append only when admitting"
+    if any("adds" in x or "recorded in the window" in x for x in probs):
+        led.fail("C10-R3", key, where(rl, rl.node), [x for x in probs if "adds" in x or "recorded in the window" in x][0])
     else:
-        led.fail("C10-R3", key, where(rl, rl.node), f"{len(apps)} append site(s) in the rate check")
-    key = "Membrane._check_rate_limit ▸ one critical section"
-    acc = [n for n in walk_no_nested(rl.node) if is_self_attr(n, "_request_times")]
-    lockname = next(iter(locks), None)
-    out_of_lock = [n for n in acc if not held_at(n, locks)]
-    withs = [n for n in walk_no_nested(rl.node) if isinstance(n, ast.With)]
-    if lockname and not out_of_lock and len(withs) == 1:
-        led.ok("C10-R3", key, where(rl, withs[0]), f"all {len(acc)} accesses to the window are inside one `with self.{lockname}`")
+        led.ok("C10-R3", key, where(rl, rl.node), "the window grows by one exactly on admitting paths")
+    # (b) one critical section: every access to the window in the check lies in one and the same region of the class's lock
+    key = f"{rl.qual} ▸ one critical section"
+    acc = [n for n in walk_no_nested(rl.node) if is_self_attr(n, WIN)]
+    regs = regions(rl, locks)
+
+    def region_of(n):
+        q = n
+        while q is not None and q is not rl.node:
+            for rg, a_ in regs:
+                if q is rg:
+                    return rg
+            q = parent(q)
+        return None
+    owners = {id(region_of(n)) for n in acc}
+    out_of_lock = [n for n in acc if region_of(n) is None or not held_at(n, locks)]
+    if acc and not out_of_lock and len(owners) == 1:
+        led.ok("C10-R3", key, where(rl, acc[0]), f"all {len(acc)} accesses to self.{WIN} are inside one region of self.{regs[0][1]}")
     else:
         led.fail("C10-R3", key, where(rl, (out_of_lock or [rl.node])[0]), "the window is read or written outside a single lock region: concurrent requests can both pass the test")
-    others = [(fi, k, n) for fi, k, n in package_attr_writes(p, "_request_times", None) if fi is not rl and not (fi.cls is mem and fi.name == "__init__")]
+    others = [(fi, k, n) for fi, k, n in package_attr_writes(p, WIN, None) if fi is not rl and not (fi.cls is mem and fi.name == "__init__")]
     if others:
         led.fail("C10-R3", "package ▸ other writers of the rate window", where(others[0][0], others[0][2]), "the rate window is modified outside the locked check")
 
@@ -378,7 +441,7 @@ def run(p, led, tier):
             led.fail("C10-R6", key, where(m, m.node), "regex arm uses match/fullmatch: surrounding benign text evades the signature")
         ins = [n for n in walk_no_nested(m.node) if isinstance(n, ast.Compare) and isinstance(n.ops[0], ast.In)]
         key = f"{cls_.name}.matches ▸ substring arm lower-cases both operands"
-        okk = ins and all(".lower()" in src(n.left) and ".lower()" in src(n.comparators[0]) or ".casefold()" in src(n.left) and ".casefold()" in src(n.comparators[0]) for n in ins)
+        okk = ins and all(any(f in resolved_src(m, n.left) and f in resolved_src(m, n.comparators[0]) for f in (".lower()", ".casefold()")) for n in ins)
         if okk:
             led.ok("C10-R6", key, where(m, ins[0]), f"`{short(ins[0])}`")
         else:
